@@ -89,6 +89,18 @@ def absorb (x y : Trap) : Trap :=
 /-- the trapezoid of a single hit (the `default` branch) -/
 def fresh (c : Cfg) (L T B : Int) : Trap := { top := T, bottom := B, left := L, right := L + c.binWidth }
 
+/-- the `else if temp != nil && temp.Left-diagonalPadding <= base.Right` arm, `b` = the widened
+    `base`: `temp` is absorbed into `b` when it has come within `diagonalPadding` of it -/
+def bridge (c : Cfg) (b : Trap) (pre temp done : List Trap) : Option St :=
+  match temp with
+  | [] =>
+    -- `temp` is the sentinel
+    if c.qlen + 1 + c.leftPadding - diagonalPadding ≤ b.right then none
+    else some ⟨pre.reverse ++ [b], done⟩
+  | t :: tt =>
+    if t.left - diagonalPadding ≤ b.right then some ⟨pre.reverse ++ absorb b t :: tt, done⟩
+    else some ⟨pre.reverse ++ b :: t :: tt, done⟩
+
 /-- The loop of `MergeFilterHit` from `base` on.  `pre` = the nodes kept so far, last first
     (`pre.head?` is `free`); `rest` = `base`, `base.next`, … up to the sentinel. -/
 def walk (c : Cfg) (L T B : Int) : List Trap → List Trap → List Trap → Option St
@@ -101,22 +113,12 @@ def walk (c : Cfg) (L T B : Int) : List Trap → List Trap → List Trap → Opt
     else if L - diagonalPadding > base.right then
       walk c L T B (base :: pre) temp done
     else if L + c.leftPadding ≥ base.left then
-      let b := widen c L T base
-      let viaTemp : Option St :=
-        match temp with
-        | [] =>
-          -- `temp` is the sentinel
-          if c.qlen + 1 + c.leftPadding - diagonalPadding ≤ b.right then none
-          else some ⟨pre.reverse ++ [b], done⟩
-        | t :: tt =>
-          if t.left - diagonalPadding ≤ b.right then some ⟨pre.reverse ++ absorb b t :: tt, done⟩
-          else some ⟨pre.reverse ++ b :: t :: tt, done⟩
       match pre with
-      | [] => viaTemp
+      | [] => bridge c (widen c L T base) pre temp done
       | free :: pre' =>
-        if free.right + diagonalPadding ≥ b.left then
-          some ⟨pre'.reverse ++ absorb free b :: temp, done⟩
-        else viaTemp
+        if free.right + diagonalPadding ≥ (widen c L T base).left then
+          some ⟨pre'.reverse ++ absorb free (widen c L T base) :: temp, done⟩
+        else bridge c (widen c L T base) pre temp done
     else
       some ⟨pre.reverse ++ fresh c L T B :: base :: temp, done⟩
 
